@@ -13,6 +13,7 @@ package main
 // summarised (ok=false).
 
 import (
+	"go/types"
 	"sort"
 	"strings"
 
@@ -300,7 +301,9 @@ func (fl *flattener) runFrom(f *ssa.Function, start *ssa.BasicBlock, bind map[ss
 				for pi, prm := range g.Params {
 					if pi < len(in.Call.Args) {
 						a := in.Call.Args[pi]
-						if pointerLike(a.Type()) && !isStringType(a.Type()) {
+						if _, isFn := a.Type().Underlying().(*types.Signature); isFn {
+							gb[prm] = e.eval(a) // a function value keeps its structure (method values)
+						} else if pointerLike(a.Type()) && !isStringType(a.Type()) {
 							gb[prm] = S(strings.TrimPrefix(e.pathOrTerm(a), "&"))
 						} else {
 							gb[prm] = e.eval(a)
